@@ -37,6 +37,7 @@ fn params(args: &[String]) -> sim::Params {
         cut: arg_s(args, "--cut").and_then(|s| s.parse().ok()),
         no_poison: flag(args, "--no-poison"),
         suppress_refused: flag(args, "--suppress-refused"),
+        no_panics: flag(args, "--no-panics"),
     }
 }
 
@@ -207,7 +208,7 @@ fn main() {
             // hang watchdog: a single history normally takes well under a millisecond; if the
             // beacon does not move for `stall` seconds while control is inside a crate call, the
             // crate is stuck on a legal history. Report and leave.
-            let stall: u64 = arg(&args, "--stall-s", if cfg!(miri) { 600 } else { 90 });
+            let stall: u64 = arg(&args, "--stall-s", if cfg!(miri) { 600 } else { 150 });
             let label = format!("prop {} seed {} scen {:?} small {}", p.prop, p.seed, p.scenario, p.small);
             // (not under Miri: a thread still running at exit is an error there, and would keep
             // Miri from doing its leak check; Miri jobs have the orchestrator's timeout instead)
@@ -366,6 +367,31 @@ fn main() {
                 futures_buffered::verif::set_probe(None);
             }
             let t0 = std::time::Instant::now();
+            // stall watchdog (not under Miri, see `run`): no progress for `stall` seconds while a
+            // crate call is in flight means the crate is stuck
+            let stall: u64 = arg(&args, "--stall-s", 90);
+            if !cfg!(miri) {
+                std::thread::spawn(move || {
+                    use std::io::Write;
+                    use std::sync::atomic::Ordering::Relaxed;
+                    let mut last = u64::MAX;
+                    let mut since = std::time::Instant::now();
+                    loop {
+                        std::thread::sleep(std::time::Duration::from_millis(500));
+                        let p = mt::PROGRESS.load(Relaxed);
+                        if p != last {
+                            last = p;
+                            since = std::time::Instant::now();
+                        } else if since.elapsed().as_secs() >= stall {
+                            let inflight = [mt::INFLIGHT[0].load(Relaxed), mt::INFLIGHT[1].load(Relaxed), mt::INFLIGHT[2].load(Relaxed)];
+                            let phase = if inflight[1] > 0 { "drop" } else if inflight[0] > 0 { "poll" } else if inflight[2] > 0 { "waker" } else { "harness" };
+                            let _ = writeln!(std::io::stdout(), "HANG {{\"hist\":{},\"phase\":\"{}\",\"stall_s\":{},\"worker\":\"mt seed {}\"}}", p, phase, stall, seed);
+                            let _ = std::io::stdout().flush();
+                            std::process::exit(3);
+                        }
+                    }
+                });
+            }
             let mut r = prng::Rng::new(seed);
             let mut sigs: HashSet<u64> = HashSet::new();
             let mut viols: Vec<String> = Vec::new();
